@@ -864,8 +864,23 @@ func (m *M) CheckLRU(t *rapid.T, ob LRUObservation, op string, incoming string, 
 			}
 		}
 	}
-	// minimality: putting the most recently used victim back would not fit
-	rstar := Round4k(ob.BeforeReal[lastVictim])
+	// minimality: putting the most recently used victim back would not fit.
+	// Several victims can be "the most recent one" as far as the history tells
+	// (one FindMissingBlobs call touches many entries in one step): the check
+	// fires only when it does for every candidate, i.e. for the largest one.
+	maxLo := -1
+	for _, v := range victims {
+		if m.Use[v].lo > maxLo {
+			maxLo = m.Use[v].lo
+		}
+	}
+	rstar := int64(-1)
+	for _, v := range victims {
+		if r := Round4k(ob.BeforeReal[v]); m.Use[v].hi >= maxLo && r > rstar {
+			rstar, lastVictim = r, v
+		}
+	}
+	_ = lastHi
 	if ob.TotalReal-W+rstar+need <= M {
 		fail("evicted more than needed: victims %v (Σ %d); without evicting %s (%d) the item (need %d) would still fit: %d - %d + %d + %d <= max_size",
 			victims, W, lastVictim, rstar, need, ob.TotalReal, W, rstar, need)
